@@ -58,6 +58,12 @@ CHECKS = {
  "C12": ("runtime monitor: allocation meter (runtime.MemStats.TotalAlloc delta, VmHWM) + compressed/uncompressed twin oracle at exact sizes around the limit",
          "exploration: documents inflating to exactly L-1, L, L+1, 2L, 10L for six limits and five DEFLATE levels on all six entry points, and bombs up to 1 GiB; within the limit the compressed and uncompressed twins must agree in outcome class and data; over the limit the call must fail and may allocate at most 8 L + 4 |input| + 2 MiB",
          "allocation bound has slack (measured 5.1 L + 0.8 MiB)", "4/C12"),
+ "C17": ("Go race detector over barrier-synchronised first-use rounds with hook-injected yields/sleeps + sequential-equivalence and purity oracles",
+         "exploration: the race-instrumented library is driven by 8-16 goroutines per fresh SP at the lazily built signing context (hooks widen the window; overlapping slow-path entries are counted), by 16 goroutines mixing every public operation on long-lived SPs, and by sequential purity sequences; zero race reports are required and every concurrent result must equal the result precomputed on a private identical SP",
+         "only executed interleavings are seen", "4/C17"),
+ "C20": ("runtime monitor: differential oracle between full validation and the unverified decoders over genuine layouts and attacker-shaped roots",
+         "exploration: every conforming layout of C08/C10 and 27 attacker root shapes (duplicate/prefixed attributes, multiple/foreign/nested Issuer, comments/CDATA/references, BOM, DOCTYPE, XML declarations with foreign encodings) are given to both decoders; whenever validation accepts, the pre-decode must succeed and agree on ID, InResponseTo, Destination, Version and Issuer",
+         "U+000D in attribute values excluded (K1)", "4/C20"),
 }
 
 NOT_BUILT = "monitor not built yet in this session (planned in DESIGN.md section 4)"
